@@ -1,15 +1,17 @@
 #!/bin/bash
-# usage: tools/try_patch.sh <patch.diff> <ID> [<ID>...]   — apply to /repo, run quick checks, revert.
-# prints one line per check: <patch> <ID> exit=<code>
+# usage: tools/try_patch.sh <patch.diff> <ID> [<ID>...]   — apply to the repo, run quick checks, revert.
+# prints one line per check: <patch> <ID> exit=<code>. Repo = $RBPSIM_REPO or /repo.
 set -u
 P="$(readlink -f "$1")"; shift
-cd /repo || exit 2
+REPO="${RBPSIM_REPO:-/repo}"
+VERIF="$(cd "$(dirname "$0")/.." && pwd)"
+cd "$REPO" || exit 2
 if ! git diff --quiet; then echo "repo dirty"; exit 2; fi
 if ! git apply "$P"; then echo "$(basename $P): patch does not apply"; exit 2; fi
 for id in "$@"; do
-  out=$(cd /verif && RBPSIM_NO_SHRINK=${NO_SHRINK:-} ./check "$id" quick 2>&1)
+  out=$(cd "$VERIF" && RBPSIM_REPO="$REPO" RBPSIM_NO_SHRINK=${NO_SHRINK:-} ./check "$id" quick 2>&1)
   code=$?
   echo "$(basename $(dirname $P))/$(basename $P) $id exit=$code $(echo "$out" | grep -E '^violation class' | head -3 | cut -c1-220 | tr '\n' ' ')"
   [ $code -eq 2 ] && echo "$out" | tail -5
 done
-git -C /repo checkout -- . ; git -C /repo clean -fdq src
+git -C "$REPO" checkout -- . ; git -C "$REPO" clean -fdq src
